@@ -650,6 +650,7 @@ int tls13_process_client_hello_exts(const uint8_t *exts, size_t extslen,
 	uint8_t *server_exts, size_t *server_exts_len, size_t server_exts_maxlen)
 {
 	size_t len = 0;
+	int key_share_seen = 0;
 	*server_exts_len = 0;
 
 	while (extslen) {
@@ -697,6 +698,7 @@ int tls13_process_client_hello_exts(const uint8_t *exts, size_t extslen,
 				error_print();
 				return -1;
 			}
+			key_share_seen = 1;
 			break;
 
 		default:
@@ -704,6 +706,11 @@ int tls13_process_client_hello_exts(const uint8_t *exts, size_t extslen,
 		}
 	}
 
+	// without a key_share client_ecdhe_public was never written
+	if (!key_share_seen) {
+		error_print();
+		return -1;
+	}
 	return 1;
 }
 
@@ -744,6 +751,7 @@ int tls_client_key_shares_from_bytes(SM2_Z256_POINT *sm2_point, const uint8_t **
 int tls13_server_hello_extensions_get(const uint8_t *exts, size_t extslen, SM2_Z256_POINT *sm2_point)
 {
 	uint16_t version;
+	int key_share_seen = 0;
 	while (extslen) {
 		uint16_t ext_type;
 		const uint8_t *ext_data;
@@ -772,12 +780,18 @@ int tls13_server_hello_extensions_get(const uint8_t *exts, size_t extslen, SM2_Z
 				error_print();
 				return -1;
 			}
+			key_share_seen = 1;
 			break;
 		//default:
 			// FIXME: not all exts handled			
 			//error_print();
 			//return -1;
 		}
+	}
+	// without a key_share sm2_point was never written
+	if (!key_share_seen) {
+		error_print();
+		return -1;
 	}
 	return 1;
 }
